@@ -632,6 +632,21 @@ class StmtMixin(BuiltinMixin):
 
     # ------------------------------------------------------------------ loops
     def loop_spec(self, node: ast.AST, ctx: Ctx):
+        gt = ctx.specials.get("$gen_top")
+        if gt is not None and not ctx.top:
+            # a loop of a generator function inlined at a `yield from`: its invariant is given by the caller's contract
+            # (env inline_loops: {qualname: {ordinal: spec}}); clauses are evaluated over the inlined frame, names that it
+            # does not bind (the caller's `self`, ghost stream `T`) resolve in the caller's frame
+            k = ctx.loop_ord.get(id(node), 0)
+            raw = (gt[0].contract.env.get("inline_loops", {}).get(ctx.func.qualname, {}) or {}).get(k)
+            if raw is None:
+                return None, k
+            from .contracts import LoopSpec, _clauses
+            dt = gt[0].contract.tags
+            if isinstance(raw, dict):
+                return LoopSpec(_clauses(raw.get("inv"), dt), raw.get("variant"), dict(raw.get("ghost_update", {})),
+                                _clauses(raw.get("exit_hints"), dt), _clauses(raw.get("body_hints"), dt)), k
+            return LoopSpec(_clauses(raw, dt)), k
         if not ctx.top or ctx.contract is None:
             return None, 0
         k = ctx.loop_ord.get(id(node), 0)
